@@ -403,8 +403,13 @@ class AdaptiveForceBias(ForceBias):
         """
         try:
             forces_committee = atoms.calc.results[self.forces_variance_keyword]  # type: ignore[try-attr]
-            return np.std(forces_committee, axis=0) / np.mean(
-                np.abs(forces_committee), axis=0
+            deviation = np.std(forces_committee, axis=0)
+            magnitude = np.mean(np.abs(forces_committee), axis=0)
+
+            # a coordinate on which every member predicts exactly zero force has no
+            # spread: its variation is zero, not 0/0
+            return np.divide(
+                deviation, magnitude, out=np.zeros_like(deviation), where=magnitude > 0
             )
         except (KeyError, AttributeError):
             warn(
